@@ -1,0 +1,20 @@
+//go:build verif
+
+// Machine-checked contracts for package output (comment-only; read by
+// /verif/govc, never compiled into the program).
+
+package output
+
+//@ func NewTaskOutput
+//@   nomod
+//@   ensures result#1 == nil ==> result != nil
+//@ func (*TaskOutput).Stdout
+//@   requires o != nil
+//@   nomod
+//@ func (*TaskOutput).Stderr
+//@   requires o != nil
+//@   nomod
+//@ func (TaskOutput).Start
+//@   nomod
+//@ func (TaskOutput).Finish
+//@   nomod
